@@ -50,6 +50,22 @@ Proof.
   apply mem_In. exact H.
 Qed.
 
+(* ... and, since fix 3cf46ce, without exception: try_from_str accepts every
+   literal as_str can write *)
+Lemma as_names_accepted : forallb (fun n => mem n from_names) as_names = true.
+Proof. vm_compute. reflexivity. Qed.
+Lemma as_names_accepted_In : forall n, In n as_names -> In n from_names.
+Proof.
+  intros n Hin. pose proof as_names_accepted as H. rewrite forallb_forall in H.
+  apply mem_In. apply H. exact Hin.
+Qed.
+Lemma as_names_sub : forall s, mem s as_names = true -> mem s from_names = true.
+Proof. intros s H. apply mem_In. apply as_names_accepted_In. apply mem_In. exact H. Qed.
+Lemma from_names_sub : forall s, mem s from_names = true -> mem s as_names = true.
+Proof.
+  intros s H. apply mem_In in H. pose proof from_names_subset as F. rewrite forallb_forall in F. apply F. exact H.
+Qed.
+
 (* the pinned table lacks each of those five *)
 Lemma pinned_missing : forallb (fun n => negb (mem n from_names_pinned)) known_missing_names = true.
 Proof. vm_compute. reflexivity. Qed.
